@@ -72,6 +72,11 @@ def make_problem(sp, spec):
         y = y * (MU["l1"] / (spec["l1rel"] * float(np.max(np.abs(Amat.conj().T @ y.reshape(-1, 1))))))
     dtype = y.dtype
     z = cplx_randn(rs, (n, 1), cplx).astype(dtype) if spec["z"] else None
+    if spec.get("dscale"):
+        # data of tiny / huge magnitude (the least-squares part is homogeneous; the regulariser weights stay as they are, so the
+        # instance is a different but perfectly valid problem whose optimum the independent reference computes)
+        y = y * spec["dscale"]
+        z = None if z is None else z * spec["dscale"]
     lam = LAM * spec.get("lamscale", 1) if spec["lam"] else 0      # lamscale: l2 weight well above ||A||^2
     gkind = spec["gkind"]
     if gkind == "dense":
@@ -441,7 +446,7 @@ def oracle_case(sp, spec, solver, given, xgiven):
     Fx, infeas = objective(P, pk, x)
     Fr, _ = objective(P, pk, xr)
     tol = TOL[seff]
-    scale = max(abs(Fr), 0.5 * float(np.vdot(P["y"], P["y"]).real), 1e-12)
+    scale = max(abs(Fr), 0.5 * float(np.vdot(P["y"], P["y"]).real), 1e-12 * (spec.get("dscale") or 1.0) ** 2)
     res.update(Fx=Fx, Fref=Fr, infeas=infeas, ref_gap=ref_gap, tol=tol, x=np.asarray(x).ravel(), xref=xr)
     if ref_gap > 1e-7:
         res.update(kind="reference-unreliable", ok=True)          # counted, not a verdict
@@ -594,6 +599,14 @@ def run(ctx):
         spec = dict(seed=rng.randrange(2 ** 31), n=n, m=n + rng.choice([1, 2]), cplx=cplx, akind="matmul", gkind=None, prox="l1",
                     lam=bool(ci % 2), z=False, l1rel=rng.choice([0.55, 0.7, 0.85, 0.97]))
         for solver in ("GradientMethod", "PrimalDualHybridGradient", "ADMM"):
+            jobs.append(dict(spec=spec, solver=solver, given=False, xgiven=False))
+    # data of tiny magnitude, no prox (so the problem is homogeneous): every solver must still reach the optimum
+    for ci in range(ctx.n(4, 24)):
+        cplx = ci % 3 == 1
+        n = rng.choice([3, 4, 5])
+        spec = dict(seed=rng.randrange(2 ** 31), n=n, m=n + rng.choice([1, 2]), cplx=cplx, akind="matmul", gkind=None, prox=None,
+                    lam=bool(ci % 2), z=bool(ci % 2), dscale=rng.choice([1e-9, 1e-12, 1e-7]))
+        for solver in (None, "ConjugateGradient", "GradientMethod", "PrimalDualHybridGradient", "ADMM"):
             jobs.append(dict(spec=spec, solver=solver, given=False, xgiven=False))
     # a dominant l2 term (lamda >> ||A||^2): every default step size / preconditioner must account for lamda
     for ci in range(ctx.n(6, 40)):
